@@ -7,6 +7,7 @@ if ! git diff --quiet; then echo "/repo has uncommitted changes"; exit 2; fi
 git apply $REV "$P" || { echo "patch does not apply"; exit 2; }
 ( cd /verif && ./check $ID $TIER > /tmp/mutant.$ID.log 2>&1; echo "exit=$?" >> /tmp/mutant.$ID.log )
 git -C /repo checkout -- . 
+( cd /verif && ./b.sh >/dev/null 2>&1 )
 git -C /repo clean -fdq lib 2>/dev/null
 grep -c '^VIOLATION' /tmp/mutant.$ID.log | sed 's/^/violations printed: /'
 grep 'violations with signature\|signature:' /tmp/mutant.$ID.log | sort | uniq -c | sort -rn | head -8
